@@ -226,6 +226,11 @@ def r202(ctx):
         ctx.ob('R20.2', 'api.__getitem__:derived-handle-inherits-only-dataset-level-state', not extra,
                'state forwarded to the sliced handle: %s; anything computed from the parent\'s row groups (statistics, '
                'category caches ...) is stale for the slice: %s' % (keys, extra or 'none'), api.loc(f))
+    rets = [s for s in iter_child_stmts(f.body) if isinstance(s, ast.Return)]
+    ctx.ob('R20.2', 'api.__getitem__:always-returns-the-newly-built-handle',
+           len(rets) == 1 and norm(rets[0]) == 'return new_pf' and rets[0] in f.body,
+           'returns: %s; a shortcut that hands back the parent (or anything not built from the selection) ignores order, '
+           'step and multiplicity of the selection and shares the parent\'s state' % [norm(r) for r in rets], api.loc(f))
     rg = [s for s in iter_child_stmts(f.body) if isinstance(s, ast.Assign) and norm(s.targets[0]) == 'fmd.row_groups']
     ctx.ob('R20.2', 'api.__getitem__:row-group-selection-stored-on-the-private-metadata-only',
            len(rg) == 1 and bool(fm) and cfg.dominates(cfg.node_of(fm[0]), cfg.node_of(rg[0])), '', api.loc(f))
